@@ -933,6 +933,7 @@ func (g *Gen) VerifyFunction(fn *ssa.Function, fc *FuncContract) error {
 		return Val{}, false
 	}
 	bindResults(env.vars, fn.Signature, results)
+	g.replay = fr.buildReplayPlan(exit, results)
 	g.curEnv = func() *Env { return env }
 	for i, c := range fc.Ensures {
 		t, err := env.EvalBool(c.E)
